@@ -217,6 +217,16 @@ pub fn check_doc(html: &[u8], w: usize, dec: &Dec, f: &Facts, cx: &mut Cx) {
             if split_footnotes(a).0 != split_footnotes(b).0 {
                 fail(cx, "no_link_wrapping changed the body text", &c, &r, &base);
             }
+            // ... and its own effect: every footnote entry stands unwrapped on one line, the
+            // entries being those the base rendering shows cut at the width
+            let (fa, fb) = (split_footnotes(a).1, split_footnotes(b).1);
+            if fb.first().map(|l| l.starts_with("[1]: ")).unwrap_or(false) && fa.first().map(|l| l.starts_with("[1]")).unwrap_or(false) {
+                let is_entry = |l: &str| l.starts_with('[') && l[1..].find("]: ").map(|i| i > 0 && l[1..1 + i].chars().all(|ch| ch.is_ascii_digit())).unwrap_or(false);
+                let squeeze = |v: &Vec<&str>| -> String { v.concat().chars().filter(|ch| !ch.is_whitespace()).collect() };
+                if !fb.iter().all(|l| is_entry(l)) || squeeze(&fa) != squeeze(&fb) {
+                    fail(cx, "no_link_wrapping: the footnote entries are not the unwrapped entries of the base rendering", &c, &r, &base);
+                }
+            }
         }
     }
     // min_wrap_width never changes a table-free rendering that succeeds both ways
